@@ -2,7 +2,7 @@
    (Gen/*.v) are equal to the hand models the proofs are about.  The tactic is
    shape-insensitive: unfold, case-split every boolean, reflexivity / lia. *)
 From Coq Require Import List ZArith Lia Bool String.
-From GL Require Import Model.Dom Model.Scalar Model.Reduce Model.Nanops Model.GroupByApi Model.Ema Model.Factorize Model.Moments Model.Rolling Gen.ScalarFuncsGen Gen.ReductionOpsGen Gen.TablesGen Gen.FactorizeGen.
+From GL Require Import Model.Dom Model.Scalar Model.Reduce Model.Nanops Model.GroupByApi Model.Ema Model.Factorize Model.Moments Model.Rolling Model.Margins Gen.ScalarFuncsGen Gen.ReductionOpsGen Gen.TablesGen Gen.FactorizeGen.
 Open Scope Z_scope.
 
 Ltac split_ifs :=
@@ -80,6 +80,8 @@ Proof. reflexivity. Qed.
 Lemma tie_moment_formulas : gen_moment_formulas = moment_formulas.
 Proof. reflexivity. Qed.
 Lemma tie_rolling_sum_updates : gen_rolling_sum_updates = rolling_sum_updates.
+Proof. reflexivity. Qed.
+Lemma tie_add_row_margin : gen_add_row_margin = add_row_margin_source.
 Proof. reflexivity. Qed.
 
 (* the mixed-radix kernel regenerated from factorization.py is the model the C02 theorems are about *)
